@@ -13,7 +13,7 @@ META = {
     "assumptions": [],
 }
 SENDS = {0: "tell", 1: "publit", 2: "pubrx", 3: "bcast"}
-POSTS = {0: "dispatch", 1: "stopB", 2: "loopend", 3: "quitflush", 4: "deregB", 5: "unsub"}
+POSTS = {0: "dispatch", 1: "stopB", 2: "loopend", 3: "quitflush", 4: "deregB", 5: "unsub", 6: "selfend"}
 
 
 def _job(send, nsend, subb, subc, pauseb, post, cap, match=None, prefill=None):
@@ -37,11 +37,11 @@ def jobs(tier):
         cfgs = [(0, 1, 1, 1, 0, 0, 3), (0, 2, 1, 1, 0, 3, 3), (0, 2, 1, 1, 0, 0, 1), (0, 1, 1, 1, 1, 2, 3),
                 (1, 1, 1, 1, 0, 0, 3), (1, 1, 1, 0, 0, 0, 3), (1, 1, 0, 0, 0, 0, 3), (1, 1, 1, 1, 0, 1, 3),
                 (1, 1, 1, 1, 0, 4, 3), (1, 1, 1, 1, 1, 0, 3), (1, 1, 1, 1, 0, 3, 3),
-                (2, 1, 1, 1, 0, 0, 3), (3, 1, 1, 1, 0, 0, 3), (3, 1, 1, 1, 1, 2, 3), (1, 1, 1, 1, 0, 5, 3), (1, 2, 1, 1, 0, 5, 3)]
+                (2, 1, 1, 1, 0, 0, 3), (3, 1, 1, 1, 0, 0, 3), (3, 1, 1, 1, 1, 2, 3), (1, 1, 1, 1, 0, 5, 3), (1, 2, 1, 1, 0, 5, 3), (0, 1, 1, 1, 1, 6, 3), (1, 1, 1, 1, 0, 6, 3)]
     else:
         cfgs = []
         for send in (0, 1, 2, 3):
-            for post in (0, 1, 2, 3, 4, 5):
+            for post in (0, 1, 2, 3, 4, 5, 6):
                 for pauseb in (0, 1):
                     cfgs.append((send, 1, 1, 1, pauseb, post, 3))
             cfgs += [(send, 2, 1, 1, 0, 0, 3), (send, 2, 1, 1, 0, 3, 3), (send, 2, 1, 1, 0, 0, 1), (send, 3, 1, 1, 0, 0, 2),
